@@ -23,14 +23,14 @@ CLAIMED = {
  "C16": ("tlc-trace", "TLC evaluation of view / graph consistency on every state x token x rule of the dumped graph and table", "5 C16"),
  "C17": ("tlc-trace", "TLC comparison of FIRST / FOLLOW / nullable / path / cost queries with declarative least fixed points; rule_min_costs transcribed to characterise non-termination", "5 C17"),
  "C18": ("tlc-ctbuild", "TLC bounded model of CTBuild.tla (all histories to a depth) + trace validation of build histories run on the real builders, one process per build, against clean builds", "5 C18"),
- "C19": ("tlc-nlc", "TLC bounded model of NewlineCache.tla (all texts x chunkings) + trace validation of the real cache over the same exhaustive family and random texts", "5 C19"),
+ "C19": ("tlc-nlc", "TLC bounded model of NewlineCache.tla + Diagnostics.tla (all texts x chunkings x queries x spans; the rendering loop as coded = the rendering defined on the line structure) + trace validation of the real cache, lexers and diagnostics formatter (every span rendered) over the same exhaustive family and random texts", "5 C19"),
  "C20": ("tlc-width", "TLC bounded model of the width guards (Width.tla) + trace validation of u8/u16/u32 builds of grammars sitting in the 2^8 / 2^16 windows; the guard lemma for all natural counts by Apalache (WidthApa.tla, length 0)", "5 C20"),
 }
 ENGINES = [
  dict(name="tlc-trace", path="/verif/spec/TraceLR.tla", kind_free_text="TLA+ modules Grammar, Analyses, LR1, Pager, StateTable, LRParse, CPCTPlus, CanonTable + trace specification TraceLR and bounded models MC_Pager, MC_CPCT, MC_Recover, checked with TLC against NDJSON recorded by harness/vh (lr) from the real crates"),
  dict(name="tlc-lexer", path="/verif/spec/Lexer.tla", kind_free_text="Lexer.tla, MC_Lexer (bounded model), TraceLex (trace specification)"),
  dict(name="tlc-ctbuild", path="/verif/spec/CTBuild.tla", kind_free_text="CTBuild.tla, MC_CTBuild (bounded model), TraceCT (trace specification) over histories run by vh ctstep"),
- dict(name="tlc-nlc", path="/verif/spec/NewlineCache.tla", kind_free_text="NewlineCache.tla, MC_NewlineCache, TraceNLC"),
+ dict(name="tlc-nlc", path="/verif/spec/NewlineCache.tla", kind_free_text="NewlineCache.tla, Diagnostics.tla, MC_NewlineCache, TraceNLC"),
  dict(name="tlc-width", path="/verif/spec/Width.tla", kind_free_text="Width.tla, MC_Width, TraceWidth; WidthApa.tla (Apalache)"),
  dict(name="tlc-src", path="/verif/spec/YaccSrc.tla", kind_free_text="YaccSrc.tla, LexSrc.tla, Totality.tla, Header.tla, LexParse.tla, YaccParse.tla, MarkMap.tla with trace specifications TraceYSrc, TraceLSrc, TraceTotal, TraceHeader, TraceLexParse, TraceYaccParse, TraceMarkMap and bounded models MC_Header, MC_LexParse, MC_YaccParse, MC_MarkMap over documents generated by lib/genyacc.py, lib/genlex.py, lib/p_hdr.py and their mutants"),
  dict(name="tlc-ctrt", path="/verif/spec/TraceCTRT.tla", kind_free_text="generated crate (lib/p_ctrt.py) + TraceCTRT.tla"),
